@@ -18,10 +18,13 @@ def tobv(v, w):
     if isinstance(v, int):
         return z3.BitVecVal(v, w)
     if isinstance(v, GSum):
-        assert v.w == w, (v.w, w)
+        if v.w != w:
+            v = gs_from(v, w)
         return v.bv()
     if isinstance(v, LazySel):
         return tobv(force(v), w)
+    if v.size() != w:
+        return z3.Extract(w - 1, 0, v) if v.size() > w else z3.SignExt(w - v.size(), v)
     return v
 
 
@@ -139,6 +142,12 @@ def int_cmp(op, a, b, w, signed):
                         return False
                     r = lits[0] if len(lits) == 1 else z3.And(*lits)
                     return r
+            if len(d.terms) == 1:
+                # two-valued difference: const or const + c
+                (g1, c1), = d.terms.values()
+                v0 = canon(d.const, w, False) == 0
+                v1 = canon(d.const + c1, w, False) == 0
+                return b_ite(g1, v1, v0)
             rng = d.range(signed)
             if rng is not None and (rng[0] > 0 or rng[1] < 0):
                 return False
@@ -149,6 +158,17 @@ def int_cmp(op, a, b, w, signed):
         return tobv(a, w) == tobv(b, w)
     # ordering
     if ga is not None and gb is not None:
+        # a two-valued operand against a constant
+        for sym, cst, flip in ((ga, b, False), (gb, a, True)):
+            if isinstance(cst, int) and len(sym.terms) == 1 and sym.range(signed) is not None:
+                (g1, c1), = sym.terms.values()
+                x0 = canon(sym.const, w, signed)
+                x1 = canon(sym.const + c1, w, signed)
+                if not flip:
+                    f = (lambda x: x < cst) if op == '<' else (lambda x: x <= cst)
+                else:
+                    f = (lambda x: cst < x) if op == '<' else (lambda x: cst <= x)
+                return b_ite(g1, f(x1), f(x0))
         ra, rb = ga.range(signed), gb.range(signed)
         if ra is not None and rb is not None:
             if op == '<':
